@@ -864,6 +864,10 @@ def check_C08(ctx):
     reader_run(ctx, "tiny", 5 if thorough else 4, "none", cases, chunk=4, intr=1)
     # UTF-16 code units whose bytes 0A / 00 meet across unit boundaries, every chunking into 1..3 bytes
     reader_run(ctx, "units", 3 if thorough else 2, "none", cases, chunk=3, intr=0)
+    # seed-generated byte / code-unit alphabets, every chunking into 1..3 bytes with one Interrupted
+    for salt in ([2, 1, 0] if thorough else [0]):
+        reader_rand_run(ctx, "hdr", 2, cases, chunk=3, intr=1, salt=salt)
+        reader_rand_run(ctx, "units", 2, cases, chunk=3, intr=1, salt=salt)
     # the pinned reader (a first chunk of 1-2 bytes is consumed while sniffing the BOM) violates the model's invariant
     reader_run(ctx, "tiny", 3, "none", None, keep=False, expect_violation=True, inv=["ScheduleIndependent"])
     summ = harness(ctx, ["reader", "replay", "--prop", "C08"], cases_file=cases, name="reader-replay", timeout=3600)
